@@ -41,6 +41,8 @@ func (g *caseGen) cmd() string {
 	n := g.r.Intn(5)
 	if g.r.Chance(1, 8) {
 		n = 0
+	} else if g.r.Chance(1, 6) {
+		n = 5 + g.r.Intn(28)
 	}
 	return vh.Hex(g.r.Bytes(n))
 }
@@ -253,6 +255,13 @@ func genCase(r *vh.Rand, id string, size int) string {
 				g.ops = append(g.ops, g.saveInTaskOp())
 			case g.kind == "disk" && r.Chance(1, 6):
 				g.midTaskScenario()
+			case r.Chance(1, 4):
+				f := strings.Fields(g.saveOp())
+				oh := f[3]
+				if r.Chance(1, 12) && f[4] != "0" {
+					oh = "3" // both set: invalid option
+				}
+				g.ops = append(g.ops, fmt.Sprintf("Q %s %s %s %s", f[1], f[2], oh, f[4]))
 			default:
 				g.ops = append(g.ops, g.saveOp())
 			}
@@ -269,7 +278,12 @@ func genCase(r *vh.Rand, id string, size int) string {
 		case x < 96:
 			g.ops = append(g.ops, "L")
 		case x < 99:
-			if g.kind != "disk" {
+			if r.Chance(1, 7) {
+				// power failures while a follower receives and installs B's snapshot
+				g.ops = append(g.ops, fmt.Sprintf("Z %d %d", []int{0, 0, 1, 3}[r.Intn(4)], []int{0, 0, 1, 4, 1000}[r.Intn(5)]))
+			} else if g.kind == "disk" && r.Chance(1, 5) {
+				g.ops = append(g.ops, fmt.Sprintf("D %d %d", []int{0, 0, 1, 3}[r.Intn(4)], []int{0, 0, 1, 4, 1000}[r.Intn(5)]))
+			} else if g.kind != "disk" {
 				switch r.Intn(4) {
 				case 0:
 					g.ops = append(g.ops, "P")
@@ -307,11 +321,12 @@ func genCase(r *vh.Rand, id string, size int) string {
 	if g.ordered {
 		ord = 1
 	}
-	return fmt.Sprintf("%s %s cap=%d ord=%d z=%d oh=%d | %s", id, g.kind, cap, ord, z, oh, strings.Join(g.ops, " ; "))
+	ec := []int{0, 1, 2, 2, 3}[r.Intn(5)]
+	return fmt.Sprintf("%s %s cap=%d ord=%d z=%d oh=%d ec=%d ac=%d | %s", id, g.kind, cap, ord, z, oh, ec, r.Intn(2), strings.Join(g.ops, " ; "))
 }
 
 func gen(a vh.Args) {
-	n := 1500
+	n := 1200
 	if a.Tier == "thorough" {
 		n = 20000
 	}
